@@ -120,6 +120,64 @@ theorem fstree_query_walk_contained (base pre wr : Path) (stat : Path → StatKi
         exact hparent (fun e => hguard ⟨e, Or.inl hst⟩)
       | other => rw [hst] at h; cases h
 
+/-- **Everything a query touches is inside the base path — for every state of the file system.**
+    Whatever exists below, at, next to or above the database directory when `Query` runs (the directory removed or
+    replaced by a file behind the back of the open storage, intermediate directories missing, siblings whose names
+    extend the directory's name, ...): every `stat`, every directory listing and every file read of `Query` and its
+    walk lies inside the base path; and every record delivered carries as key the name, relative to the base
+    path, of a file that was read there (resolving the key from the base directory leads to that file). -/
+theorem fstree_query_reads_contained (fs : Ents) (hfs : fs.NamesNormal) (base pre : Path) (hb : isAbs base = true)
+    (r : WalkRes) (h : queryRun fs base pre = .ok r) :
+    (∀ a ∈ r.acc, Inside base a.path) ∧
+    (∀ k ∈ r.keys, ∃ p, Access.read p ∈ r.acc ∧ Inside base p ∧ relOf base p = some k ∧
+      resolveFrom (resolve base) k = resolve p) := by
+  suffices H : WalkGood base r by
+    refine ⟨H.1, fun k hk => ?_⟩
+    obtain ⟨p, h1, h2, h3⟩ := H.2 k hk
+    exact ⟨p, h1, H.1 _ h1, h2, h3⟩
+  unfold queryRun at h
+  cases hbf : buildFilePath base pre false with
+  | error e => rw [hbf] at h; cases h
+  | ok wp =>
+    rw [hbf] at h
+    dsimp only at h
+    have hwp := (fstree_contained base pre false wp hb hbf).1
+    have hstat : WalkGood base { acc := [Access.stat wp] } :=
+      walkGood_accOnly (by intro a ha; simp at ha; subst ha; exact hwp)
+    cases hq : queryWalkRoot base pre (statKindOf fs) with
+    | error e => rw [hq] at h; cases h
+    | ok o =>
+      rw [hq] at h
+      cases o with
+      | none => cases h; exact hstat
+      | some wr =>
+        dsimp only at h
+        cases h
+        have hin := fstree_query_walk_contained base pre wr (statKindOf fs) hb hq
+        -- the walk root is a cleaned path: the walk prefix itself or its `Dir`
+        have hcl : clean wr = wr := by
+          have hwpc : clean wp = wp := by
+            unfold buildFilePath at hbf
+            simp only [Bool.false_eq_true, false_and, if_false] at hbf
+            split at hbf
+            · cases hbf
+            · cases hbf; exact clean_join2 hb pre
+          unfold queryWalkRoot at hq
+          rw [hbf] at hq
+          dsimp only at hq
+          have hdir : clean (dirOf wp) = dirOf wp := clean_dirOf hwp.1
+          split at hq
+          · cases hq
+          · cases hst : statKindOf fs wp with
+            | dir =>
+              rw [hst] at hq
+              dsimp only at hq
+              split at hq <;> (cases hq; first | exact hwpc | exact hdir)
+            | file => rw [hst] at hq; cases hq; exact hdir
+            | absent => rw [hst] at hq; cases hq; exact hdir
+            | other => rw [hst] at hq; cases hq
+        exact walkGood_andThen hstat (walkTop_good hb pre hfs hin hcl)
+
 /-! ### Directory-structure helper: requested paths -/
 
 /-- Every directory `EnsureAbsPath` creates / chmods for an accepted path lies inside the structure's root. -/
@@ -192,51 +250,6 @@ theorem dirstructure_rel_contained (root : Path) (hr : isAbs root = true) :
 `dhistory (newDirStructure root perm) calls` is everything handed to `EnsureDirectory` (created / chmod-ed /
 a file of that name replaced) while the calls `ChildDir`, `Ensure`, `EnsureAbsPath`, `EnsureRelPath`, `EnsureRelDir`
 are made in any order on any node of the tree, with arbitrary names. -/
-
-/-- The tree after a history of calls. -/
-def treeAfter (t : DTree) : List DCall → DTree
-  | [] => t
-  | c :: cs => treeAfter (dcall t c).1 cs
-
-theorem dwf_dcall {t : DTree} {root : Path} (hw : DWF t root) (c : DCall) : DWF (dcall t c).1 root := by
-  cases c with
-  | childDir h name perm =>
-    simp only [dcall]
-    split
-    · rename_i hh; exact dwf_childDir hw hh name perm
-    · exact hw
-  | ensure h => exact hw
-  | ensureAbs h p => exact hw
-  | ensureRel h rel => exact hw
-  | ensureRelDir h names => exact hw
-
-theorem dwf_treeAfter {t : DTree} {root : Path} (hw : DWF t root) (calls : List DCall) : DWF (treeAfter t calls) root := by
-  induction calls generalizing t with
-  | nil => exact hw
-  | cons c cs ih => exact ih (dwf_dcall hw c)
-
-/-- `EnsureAbsPath` on any node of a well-formed tree: everything it touches is inside the root. -/
-theorem ensureAbsPathT_contained {t : DTree} {root : Path} (hw : DWF t root) (hr : isAbs root = true) {h : Nat}
-    (hh : h < t.length) (dirPath : Path) (dirs : List (Path × Nat)) (hok : ensureAbsPathT t h dirPath = .ok dirs) :
-    ∀ d ∈ dirs, Inside root d.1 := by
-  obtain ⟨r', hsl, hres, h47⟩ := slashed_root hr
-  unfold ensureAbsPathT at hok
-  rw [topOf_eq_zero hw _ h hh hh] at hok
-  dsimp only at hok
-  rw [hw.2.1, hsl] at hok
-  have h0a : isAbs (t.pathOf 0) = true := by rw [hw.2.1]; exact hr
-  have h0i : resolve root <+: resolve (t.pathOf 0) := by rw [hw.2.1]; exact List.prefix_refl _
-  split at hok
-  · cases hok
-    exact ensureFrom_inside hw [] (by simp) 0 h0a h0i
-  · split at hok
-    · cases hok
-    · rename_i hpre
-      simp at hpre
-      obtain ⟨rel, hrel, hharm⟩ := scope_pass_rel hr hres h47 hpre
-      rw [hrel] at hok
-      cases hok
-      exact ensureFrom_inside hw _ hharm 0 h0a h0i
 
 /-- **Containment for every history.**  Whatever sequence of `ChildDir` / `Ensure*` calls is made on the nodes of
     one `DirStructure` tree, with whatever names, every directory that is created, chmod-ed or put in place of a
@@ -505,6 +518,24 @@ example : queryWalkRoot (B "/a/root") (B "x") (fun _ => .absent) = .ok (some (B 
 example : queryWalkRoot (B "/a/root") (B "a/x") (fun _ => .other) = .error .statErr := by decide
 example : buildFilePath (B "/a/root") (B "d/../x") true = .ok (join2 (B "/a/root") (B "d/../x")) :=
   fstree_accepts_inside (B "/a/root") (B "d/../x") true (by decide) (by decide) (by decide) (by decide) (B "x") [] (by decide)
+-- fstree on a file-system state: `/x` holds the database directory `db` (or not) and a sibling `db-old` with a record
+private def fsWith (db : Ents → Ents) : Ents :=
+  Ents.dir (B "x") (db (Ents.dir (B "db-old") (Ents.file (B "secret") true Ents.nil) (Ents.file (B "note.txt") false Ents.nil))) Ents.nil
+private def fsDb : Ents := fsWith (Ents.dir (B "db") (Ents.file (B "a") true (Ents.dir (B "d") (Ents.file (B "b") true Ents.nil) Ents.nil)))
+example : queryRun fsDb (B "/x/db") (B "") = .ok ⟨[.stat (B "/x/db"), .stat (B "/x/db"), .list (B "/x/db"),
+    .stat (B "/x/db/a"), .read (B "/x/db/a"), .stat (B "/x/db/d"), .list (B "/x/db/d"), .stat (B "/x/db/d/b"), .read (B "/x/db/d/b")],
+    [B "a", B "d/b"], false⟩ := by decide
+example : queryRun fsDb (B "/x/db") (B "d") = .ok ⟨[.stat (B "/x/db/d"), .stat (B "/x/db"), .list (B "/x/db"),
+    .stat (B "/x/db/a"), .read (B "/x/db/a"), .stat (B "/x/db/d"), .list (B "/x/db/d"), .stat (B "/x/db/d/b"), .read (B "/x/db/d/b")],
+    [B "d/b"], false⟩ := by decide
+-- the database directory removed behind the back of the open storage: prefixes that resolve to it are answered without a walk
+example : queryRun (fsWith id) (B "/x/db") (B "") = .ok { acc := [.stat (B "/x/db")] } := by decide
+example : queryRun (fsWith id) (B "/x/db") (B "../db") = .ok { acc := [.stat (B "/x/db")] } := by decide
+example : queryRun (fsWith (Ents.file (B "db") true)) (B "/x/db") (B ".") = .ok { acc := [.stat (B "/x/db")] } := by decide
+example : queryRun (fsWith id) (B "/x/db") (B "k") = .ok { acc := [.stat (B "/x/db/k"), .stat (B "/x/db")] } := by decide
+example : queryRun (fsWith id) (B "/x/db") (B "../db-old") = .error .integrity := by decide
+-- what the defect was (fixed in the repo): a walk that starts at the parent lists it before the callback can say SkipDir
+example : walkTop (fsWith id) (B "/x/db") (B "") (B "/x") = { acc := [.stat (B "/x"), .list (B "/x")] } := by decide
 -- DirStructure (#22): parent references behind a matching prefix
 example : ensureAbsPath (B "/a/root") (B "/a/root/../outside/x") = .error .outside := by decide
 example : ensureAbsPath (B "/a/root") (B "/a/root-other/x") = .error .outside := by decide
